@@ -28,7 +28,11 @@ RESERVED_BY_PATH = {"": {"net", "map", "pub"}, "net": {"client", "server"}, "pub
 AWKWARD = ["Data", "Encrypt", "Protocol", "Net2", "MapX", "Pub9", "Enum", "Int", "Type", "List", "Dict", "Reader", "Writer",
            "Client", "Server", "PACKET", "Net", "Map", "Pub", "Sys", "Abc", "Typing",
            # names whose module path contains text a path / extension manipulation might trip over
-           "Pyramid", "PyThing", "XmlDoc", "Init", "Generated", "Eolib"]
+           "Pyramid", "PyThing", "XmlDoc", "Init", "Generated", "Eolib",
+           # names whose module (the lower-case word) has the name of a builtin: star-imports put that module into
+           # the package namespaces, where hand-written code may call the builtin
+           "Globals", "Str", "Len", "Range", "Set", "Open", "Bytes", "Filter", "Sorted", "Getattr", "Vars", "Dir", "Print",
+           "Object", "Tuple", "Zip", "Isinstance", "Setattr", "Hasattr", "Any", "All", "Iter", "Next", "Super"]
 COMMENT_BITS = ["The thing", "used for <b>stuff</b> & more", "it's > 9", "line one\nline two", "100% of 'it'", "a < b", "§ ünï ©"]
 INT_KINDS = ["byte", "char", "short", "three", "int"]
 
